@@ -775,3 +775,10 @@ mod e2e_tests {
         );
     }
 }
+
+// verification hook (guard: --cfg ipa_verif)
+#[cfg(all(test, ipa_verif))]
+#[allow(warnings, clippy::all, clippy::pedantic)]
+mod verif {
+    include!(concat!(env!("IPA_VERIF_DIR"), "/h11_server.rs"));
+}
